@@ -136,10 +136,10 @@ prop("C30", "KM", "model_checking", text="Bounded model checking on the real Mod
      technique="z3 equivalence of the instantiation semantics of the real encoder's output with a label-based reference model over bounded-exhaustive edit histories (engine M) + Kani/CBMC bounded model checking (K-ops additions, K-const, K-conv)", outside="section emission in encode_internal (wasm-encoder calls)" + M_OUT)
 
 
-prop("C13", "K", "model_checking",
-     text="Bounded model checking of the real ModuleTypes on a type space built through its own add_* API: a third symbolic array type is deduplicated against either existing type or gets the next index, existing types keep index and content, every new type gets a group of its own; function types are deduplicated iff their signatures are equal; supertype, finality and shared flag are part of the type.",
-     technique="Kani/CBMC bounded model checking of ModuleTypes::add_* (exactness, dedup, stability of existing types)",
-     outside="type spaces that come from parsing (ModuleTypes::new): explicit recursion groups and duplicate parsed types - CBMC does not finish ModuleTypes::new with two parsed types in 30 min (measured twice); struct types (a CBMC counterexample on add_struct_type did not reproduce natively: encoding artefact, harness removed); emission of the type section (encode_type is C01's subject); more than 1 param/result")
+prop("C13", "KM", "model_checking",
+     text="Bounded model checking of the real ModuleTypes on a type space built through its own add_* API: a third symbolic array type is deduplicated against either existing type or gets the next index, existing types keep index and content, every new type gets a group of its own; function types are deduplicated iff their signatures are equal; supertype, finality and shared flag are part of the type. In addition (engine M; beyond the general z3-decided observables this part is an exact comparison): on a base module whose type section holds a duplicated type and an explicit recursion group, function types are added through ModuleTypes::add_func_type (also implicitly by FunctionBuilder and add_import_func) inside edit histories of <= 2 (quick) / 3 (thorough) steps and the RETURNED TypeID is given to an added import; in the real encoder's output the whole type section (types by index, recursion-group structure) must be the parsed one followed by exactly the new distinct types, and the type every function import refers to must be the requested signature.",
+     technique="Kani/CBMC bounded model checking of ModuleTypes::add_* (exactness, dedup, stability of existing types) + exact comparison of the type section and import type bindings of the real encoder's output with a reference list over bounded-exhaustive edit histories (engine M)",
+     outside="symbolic execution of ModuleTypes::new on parsed type spaces (CBMC does not finish it with two parsed types in 30 min, measured twice): explicit recursion groups and duplicate parsed types are covered by engine M's concrete base module only; array / struct types in engine M; struct types (a CBMC counterexample on add_struct_type did not reproduce natively: encoding artefact, harness removed); emission of the type section (encode_type is C01's subject); more than 1 param/result")
 
 def generated_harness_files(pid, tier, seed):
     out = {}
